@@ -25,7 +25,7 @@ import os
 import sys
 
 from .. import mirq, symx
-from ..interp import Machine, Adt, Term, PyVec, Panic, ok, err, some, NONE, explore, dcopy
+from ..interp import Machine, Adt, Term, PyVec, PyIter, Panic, ok, err, some, NONE, explore, dcopy
 from ..report import Unsupported
 
 LEVEL = "other"
@@ -919,6 +919,235 @@ def check_sighash_msg(chk, F):
     chk.floor(R, "cases", n, 300)
 
 
+# ---- R14.9 updater: taproot fields ------------------------------------------------------------------------------------
+
+def check_updater_taproot(chk, F):
+    from . import c15
+    from ..builtins import deref, PyMap
+    R = "R14.9"
+    chk.rule(R, "update_item_with_descriptor_helper on a tr() descriptor records exactly BIP-371's fields: tap_internal_key "
+                "= the internal key, tap_merkle_root = the BIP-341 root of the tree, one tap_scripts entry per leaf (control "
+                "block folding to that root -> (leaf script, tapscript version)), and tap_key_origins = for every key its "
+                "key source with the sorted, duplicate-free leaf hashes of exactly the leaves that contain it (none for a key "
+                "that is only the internal key); nothing else is written; evaluated over tree shapes and key placements with "
+                "the hash functions as a free algebra")
+    fn = F.fn("update_item_with_descriptor_helper", file="psbt/mod.rs")
+    chk.saw(fn)
+    m = c15.machine(F)
+    h = m.hooks
+    TR = c15.TR
+    DESC = "descriptor::Descriptor"
+    leafkeys = {}
+
+    def ms_leaf(name):
+        return Adt(c15.MS, "Miniscript", {"node": Term("leafnode", name), "ty": Term("ty"), "ext": Term("ext"), "phantom": (),
+                                          "leafname": name})
+    for q in F.fns:
+        if q.endswith("::iter_pk") and "Miniscript" in q:
+            h[q] = lambda m_, a, c: PyIter(list(leafkeys[deref(a[0]).fields["leafname"]]))
+    h["ToPublicKey::to_x_only_pubkey"] = lambda m_, a, c: ("xonly", deref(a[0]))
+    h["miniscript::ToPublicKey::to_x_only_pubkey"] = h["ToPublicKey::to_x_only_pubkey"]
+    h["bitcoin::secp256k1::Secp256k1::<bitcoin::secp256k1::VerifyOnly>::verification_only"] = lambda m_, a, c: Term("secp")
+    h["<bitcoin::ScriptBuf as std::convert::From<&bitcoin::Script>>::from"] = lambda m_, a, c: deref(a[0])
+    h["bitcoin::ScriptBuf::from"] = lambda m_, a, c: deref(a[0])
+    h["bitcoin::script::<impl std::convert::From<&'a bitcoin::Script> for bitcoin::ScriptBuf>::from"] = lambda m_, a, c: deref(a[0])
+    from .. import builtins as B
+    orig_tf = B.TRAIT_TABLE.get(("std::convert::TryFrom", "try_from"))
+
+    def tf(m_, a, c):
+        st = " ".join([c.get("self_ty") or ""] + (c.get("targs") or []))
+        if "TaprootMerkleBranch" in st:
+            r = c15._try_from_hook(m_, a, c)
+            if r is not None:
+                return r
+        return orig_tf(m_, a, c) if orig_tf else B.NOT_HANDLED
+    cases = [
+        # (brace text of the tree or None, {leaf: keys}, internal key)
+        (None, {}, "IK"),
+        ("A", {"A": ["K0"]}, "IK"),
+        ("{A,B}", {"A": ["K0", "K1"], "B": ["K1", "K2"]}, "IK"),
+        ("{A,{B,C}}", {"A": ["K0"], "B": ["K0", "K1"], "C": ["IK"]}, "IK"),
+        ("{{A,B},{C,D}}", {"A": ["K0"], "B": ["K1"], "C": ["K0", "K1"], "D": ["K2", "K0"]}, "IK"),
+        ("{A,{B,{C,D}}}", {"A": ["K3"], "B": ["K3"], "C": ["K3"], "D": ["K3", "K3"]}, "K3"),
+    ]
+    B.TRAIT_TABLE[("std::convert::TryFrom", "try_from")] = tf
+    n = 0
+    try:
+        for text, lk, ik in cases:
+            key = "%s|%s" % (text, ",".join("%s:%s" % (k, "+".join(v)) for k, v in sorted(lk.items())))
+            leafkeys.clear()
+            leafkeys.update(lk)
+            tree = NONE
+            if text is not None:
+                tree = some(c15.mk_tree(text))
+            trv = Adt(TR, "Tr", {"internal_key": ik, "tree": tree, "spend_info": Term("cache")})
+            dv = Adt(DESC, "Tr", {"0": trv})
+            allkeys = sorted(set([ik] + [k for v in lk.values() for k in v]))
+
+            def translate(m_, a, c, dv=dv, allkeys=allkeys):
+                lkup = deref(a[1])
+                mp = lkup.fields["0"]
+                for k in allkeys:
+                    B._map_insert(m_, [mp, k, ("keysource", k)], {})
+                return ok(dcopy(dv))
+            for q in F.fns:
+                if q.endswith("Descriptor::<Pk>::translate_pk"):
+                    h[q] = translate
+            # Tr::spend_info: the value C15 decides; computed here by evaluating TrSpendInfo::from_tr
+            from_tr = F.fn("from_tr", file="tr/spend_info.rs")
+            si_fn = [q for q in F.fns if q.endswith("Tr::<Pk>::spend_info")]
+            for q in si_fn:
+                h[q] = lambda m_, a, c: m_.call_callee({"def": from_tr, "resolved": from_tr, "name": "from_tr", "targs": ["PK"]}, [deref(a[0])])
+            item = mk_input("item")
+            item.fields["tap_internal_key"] = NONE
+            item.fields["tap_merkle_root"] = NONE
+            item.fields["tap_key_origins"] = PyMap([])
+            item.fields["tap_scripts"] = PyMap([])
+            item.fields["bip32_derivation"] = PyMap([])
+            item.fields["redeem_script"] = NONE
+            item.fields["witness_script"] = NONE
+            before = dict((k, repr(v)) for k, v in item.fields.items())
+            n += 1
+            try:
+                r = m.call_callee({"def": fn, "resolved": fn, "name": "helper", "targs": [INPUT]}, [item, dv, NONE])
+            except Unsupported as e:
+                chk.fail(R, "unanalysable:" + key, "unanalysable: %s" % e, where=e.where, kind="unanalysable")
+                break
+            except Panic as e:
+                chk.fail(R, key, "panic: %s" % e, where="src/psbt/mod.rs")
+                continue
+            bad = []
+            if not (isinstance(r, Adt) and r.variant == "Ok" and r.fields["0"][1] is True):
+                bad.append("result %r" % (r,))
+            # specification
+            if text is not None:
+                root, leaves = c15.spec_tree(c15.parse_braces(text))      # [(name, depth, path)]
+            else:
+                root, leaves = None, []
+            got_ik = item.fields["tap_internal_key"]
+            if repr(got_ik) != repr(some(("xonly", ik))):
+                bad.append("tap_internal_key = %r, expected the internal key %s" % (got_ik, ik))
+            got_root = item.fields["tap_merkle_root"]
+            if repr(got_root) != repr(some(root) if root is not None else NONE):
+                bad.append("tap_merkle_root = %r, expected %r" % (got_root, root))
+            ts = item.fields["tap_scripts"].pairs
+            if len(ts) != len(leaves):
+                bad.append("%d tap_scripts entries for %d leaves" % (len(ts), len(leaves)))
+            seen_scripts = []
+            for cb, val in ts:
+                cb = deref(cb)
+                script, ver = deref(val)
+                seen_scripts.append(repr(script))
+                nm = script[1] if isinstance(script, tuple) else None
+                branch = cb.fields["merkle_branch"].items
+                if root is not None and nm is not None and repr(c15.fold(c15.leaf_hash(nm), branch)) != repr(root):
+                    bad.append("the control block stored for leaf %s does not fold to the root" % nm)
+                if "TapScript" not in repr(ver):
+                    bad.append("leaf %s stored with version %r" % (nm, ver))
+            if sorted(seen_scripts) != sorted(repr(("script", nm)) for nm, _, _ in leaves):
+                bad.append("tap_scripts holds the scripts %s, the tree has %s" % (sorted(seen_scripts), sorted(nm for nm, _, _ in leaves)))
+            want_or = {}
+            for k in allkeys:
+                hs = sorted(set(repr(c15.leaf_hash(nm)) for nm, _, _ in leaves if k in lk.get(nm, [])))
+                want_or[repr(("xonly", k))] = (hs, repr(("keysource", k)))
+            got_or = {}
+            for k, v in item.fields["tap_key_origins"].pairs:
+                hashes, src = deref(v)
+                hl = [repr(x) for x in deref(hashes).items]
+                got_or[repr(deref(k))] = (hl, repr(deref(src)))
+                if hl != sorted(set(hl), key=hl.index) or len(hl) != len(set(hl)):
+                    bad.append("leaf hashes of %r are not duplicate-free: %s" % (k, hl))
+            for k in want_or:
+                g = got_or.get(k)
+                if g is None or sorted(g[0]) != want_or[k][0] or g[1] != want_or[k][1]:
+                    bad.append("tap_key_origins[%s] = %r, expected %r" % (k, g, want_or[k]))
+            if set(got_or) - set(want_or):
+                bad.append("tap_key_origins has extra keys %s" % sorted(set(got_or) - set(want_or)))
+            for f_ in ("redeem_script", "witness_script", "bip32_derivation", "final_script_sig", "final_script_witness", "partial_sigs"):
+                if repr(item.fields[f_]) != before[f_]:
+                    bad.append("field %s was written: %r" % (f_, item.fields[f_]))
+            chk.obligation(R, not bad, key, "; ".join(bad[:3])[:900], where="src/psbt/mod.rs")
+    finally:
+        B.TRAIT_TABLE[("std::convert::TryFrom", "try_from")] = orig_tf
+    chk.floor(R, "tree / key placements", n, 6)
+
+
+# ---- R14.10 updater: key sources ---------------------------------------------------------------------------------------
+
+def check_key_sources(chk, F):
+    from . import c10, c16
+    from ..builtins import deref, PyMap
+    R = "R14.10"
+    chk.rule(R, "the updater's key translator (KeySourceLookUp::pk) returns the key derived along the definite key's own path "
+                "and records for it (master fingerprint, origin path + derivation path) as BIP-174 key source; over single and "
+                "extended keys with / without origin and path")
+    ps = [it["path"] for i in F.impls if (i["self_adt"] or "").endswith("psbt::KeySourceLookUp") and (i["trait"] or "").endswith("Translator")
+          for it in i["items"] if it["name"] == "pk"]
+    fs = [it["path"] for i in F.impls if i["trait"] == "std::str::FromStr" and i["self_adt"] == c10.DPK
+          for it in i["items"] if it["name"] == "from_str"]
+    new = [q for q in F.fns if q.endswith("DefiniteDescriptorKey::new")]
+    if len(ps) != 1 or len(fs) != 1 or len(new) != 1:
+        chk.fail(R, "anchor", "KeySourceLookUp::pk / DescriptorPublicKey::from_str / DefiniteDescriptorKey::new not found", kind="unanalysable")
+        return
+    chk.saw(ps[0])
+    m = c10.key_machine(F)
+    c16.derivation_hooks(m)
+    def to_pk(m_, a, c):
+        v = deref(a[0])
+        if isinstance(v, Adt):
+            return v
+        if isinstance(v, tuple) and v[0] == "pk":      # a bitcoin::PublicKey given by its text
+            return Adt("bitcoin::PublicKey", "PublicKey", {"compressed": len(v[1]) == 66, "inner": v})
+        return Adt("bitcoin::PublicKey", "PublicKey", {"compressed": True, "inner": ("even-y", v)})
+    m.hooks["miniscript::ToPublicKey::to_public_key"] = to_pk
+    m.hooks["ToPublicKey::to_public_key"] = m.hooks["miniscript::ToPublicKey::to_public_key"]
+    texts = [t for t in c10.key_texts() if "*" not in t and "<" not in t and not any(st.endswith(("'", "h")) for st in t.split("]")[-1].split("/")[1:])]
+    # (a single key without origin hashes its own serialization for the fingerprint: byte-level, not decided)
+    texts = [t for t in texts if c10.XONLY not in t and (t.startswith("[") or c10.XPUB in t)]
+    n = 0
+    for t in texts:
+        key = t.replace(c10.XPUB, "XPUB").replace(c10.PK33, "PK33").replace(c10.PK65, "PK65")
+        sp = c16.spec_key(t)
+        try:
+            r = m.call_path(fs[0], [t])
+            d = m.call_path(new[0], [r.fields["0"]])
+            if d.variant != "Ok":
+                continue
+            lk = Adt("psbt::KeySourceLookUp", "KeySourceLookUp", {"0": PyMap([]), "1": Term("secp")})
+            out = m.call_path(ps[0], [lk, d.fields["0"]])
+            n += 1
+            bad = []
+            pairs = lk.fields["0"].pairs
+            opath = sp["origin"][1] if sp["origin"] else []
+            want_path = opath + sp["paths"][0]
+            if len(pairs) != 1:
+                bad.append("%d key sources recorded" % len(pairs))
+            else:
+                k, (fp, path) = pairs[0][0], deref(pairs[0][1])
+                gotp = [(x.variant, x.fields["index"]) for x in deref(path).items]
+                if gotp != want_path:
+                    bad.append("recorded path %r, expected origin path + path %r" % (gotp, want_path))
+                gfp = "".join("%02x" % b for b in deref(fp).items) if hasattr(deref(fp), "items") else repr(deref(fp))
+                if sp["origin"] and gfp != sp["origin"][0]:
+                    bad.append("recorded fingerprint %s, expected the origin's %s" % (gfp, sp["origin"][0]))
+                if not sp["origin"] and sp["kind"] == "x" and "fingerprint-of" not in gfp:
+                    bad.append("recorded fingerprint %s, expected the extended key's own" % gfp)
+                res = deref(out.fields["0"]) if out.variant == "Ok" else None
+                if res is None or repr(deref(k)) != repr(res.fields["inner"] if isinstance(res, Adt) else res):
+                    bad.append("the recorded key %r is not the returned key %r" % (deref(k), res))
+                if sp["kind"] == "x":
+                    wantk = ("derived", ("xkey", sp["base"]), tuple(sp["paths"][0]))
+                    if not isinstance(res, Adt) or repr(res.fields["inner"]) != repr(wantk):
+                        bad.append("returns %r, expected the key derived along %r" % (res, sp["paths"][0]))
+            chk.obligation(R, not bad, key, "; ".join(bad[:3]).replace(c10.XPUB, "XPUB")[:700], where="src/psbt/mod.rs")
+        except Unsupported as e:
+            chk.fail(R, "unanalysable:" + key, "unanalysable: %s" % e, where=e.where, kind="unanalysable")
+            break
+        except Panic as e:
+            chk.fail(R, key, "panic: %s" % e, where="src/psbt/mod.rs")
+    chk.floor(R, "definite keys", n, 12)
+
+
 def run(chk):
     F = chk.facts()
     chk.explanation = __doc__
@@ -941,3 +1170,6 @@ def run(chk):
         chk.guard("R14.6", "get_descriptor", check_get_descriptor, chk, F)
     if not ONLY or "8" in ONLY:
         chk.guard("R14.8", "sighash_msg", check_sighash_msg, chk, F)
+    if not ONLY or "9" in ONLY:
+        chk.guard("R14.9", "updater-taproot", check_updater_taproot, chk, F)
+        chk.guard("R14.10", "key-sources", check_key_sources, chk, F)
